@@ -16,11 +16,14 @@ FAMILIES = ["same-seqnum-top", "newest-unrecoverable", "healthy", "newest-plus-s
             "old-and-new", "corrupt-deep", "newest-plus-recoverable-extras", "corrupt-invalid", "random",
             "same-seqnum-lower", "same-seqnum-top", "newest-unrecoverable", "newest-plus-stale-extras", "old-and-new",
             "corrupt-deep", "newest-plus-recoverable-extras", "random", "unreachable", "corrupt-duplicate",
-            "corrupt-newest-complete-older"]
+            "corrupt-newest-complete-older", "corrupt-privkey", "corrupt-privkey"]
 MAX_STEPS = 3000      # scheduler steps per operation (a check/repair here needs a few hundred): a client that loops
 #                       forever (see C10 read-never-completes) must not stall the run
 INVALID_KINDS = ["hdr"]                       # signed fields edited: every survey drops the share
 DEEP_KINDS = ["block", "salt", "bht", "chain"]  # found by verification only
+PRIVKEY_KINDS = ["encprivkey"]   # found only by a verifying check that holds the write-cap; generated only by the family
+#                                  'corrupt-privkey', which runs exactly that operation
+VERIFY_KINDS = DEEP_KINDS + PRIVKEY_KINDS
 OPEN_KINDS = ["sig"]   # signature bytes are consulted only for the first share of a version a survey processes:
 #                        whether such a share counts is left open (both readings are evaluated, disagreement => skip)
 
@@ -59,12 +62,13 @@ def run(ck):
         publish_mod.os = real_os
         undo_time()
     ck.observe("eventual-exceptions", len(env.evq.exceptions))
-    ck.require_monitor("health-oracle", "recoverable-oracle", "unforced-repair-refusal-oracle", "post-repair-oracle")
+    ck.require_monitor("health-oracle", "recoverable-oracle", "unforced-repair-refusal-oracle", "post-repair-oracle",
+                       "post-repair-results-oracle")
     ck.require_reach("healthy-reported", "unhealthy-reported", "verify-found-corrupt-share",
                      "unforced-repair-refused-newer-unrecoverable", "unforced-repair-refused-same-seqnum",
                      "forced-repair-over-newer-unrecoverable", "forced-repair-with-same-seqnum-competitors",
                      "repair-succeeded", "repair-replaced-corrupt-share", "check-and-repair-repaired",
-                     "post-repair-n-distinct-shares-alone-suffice")
+                     "post-repair-n-distinct-shares-alone-suffice", "verify-found-corrupt-private-key")
 
 
 def gen_params(rng):
@@ -107,6 +111,11 @@ def corrupt_raw(M, raw, kind, rng):
             ms.flip(bs + rng.randrange(be - bs), 1 << rng.randrange(8))
     elif kind == "bht":
         s, e = ms.regions()["block_hash_tree"]
+        if e <= s:
+            return None
+        ms.flip(s + rng.randrange(e - s), 1 << rng.randrange(8))
+    elif kind == "encprivkey":
+        s, e = ms.regions()["enc_privkey"]
         if e <= s:
             return None
         ms.flip(s + rng.randrange(e - s), 1 << rng.randrange(8))
@@ -267,7 +276,14 @@ class History(object):
                              if sh not in V[newest]["snap"].get(vs.index, {}) and (vs.index, sh) not in extras]
                     if cands:
                         extras[(rng.choice(cands), sh)] = other
-        if fam in ("corrupt-duplicate", "corrupt-newest-complete-older"):
+        if fam == "corrupt-privkey":
+            # the newest version complete; the encrypted private key of one or two shares damaged
+            for idx in holders:
+                states[idx] = ("v", newest)
+            installed = [(idx, sh) for idx in holders for sh in V[newest]["snap"].get(idx, {})]
+            for (idx, sh) in rng.sample(installed, min(len(installed), rng.choice([1, 1, 2]))):
+                corrupt[(idx, sh)] = "encprivkey"
+        if fam in ("corrupt-duplicate", "corrupt-newest-complete-older", "corrupt-privkey"):
             pass
         elif fam == "healthy":
             for idx in holders:
@@ -353,7 +369,11 @@ class History(object):
                 if cands:
                     extras[(rng.choice(cands), sh)] = other
         # corruption
-        if fam in ("corrupt-deep", "corrupt-invalid", "random") or rng.random() < .15:
+        if fam == "corrupt-privkey":
+            for vs in self.g.servers:
+                if states[vs.index] == ("down",):
+                    states[vs.index] = ("empty",)
+        elif fam in ("corrupt-deep", "corrupt-invalid", "random") or rng.random() < .15:
             installed = [(idx, sh) for idx, st in states.items() if st[0] == "v"
                          for sh in V[st[1]]["snap"].get(idx, {})]
             if installed:
@@ -447,7 +467,7 @@ class History(object):
             if kind in INVALID_KINDS:
                 corrupt_seen = True
                 continue
-            if kind in DEEP_KINDS:
+            if kind in VERIFY_KINDS:
                 corrupt_seen = True
                 if verify_level:
                     continue
@@ -524,6 +544,16 @@ class History(object):
             plan = ["check", "repair"]
             self.counter[1] += 1
             force = self.counter[1] % 2 == 0        # alternate so both refusal and forced repair are reached early
+        if fam == "corrupt-privkey":
+            # only a verifying check with the write-cap looks at encrypted private keys.  One ordered connection per
+            # server (the key read is sent before the block reads) and local processing first: the key verdict of a share
+            # is then available before its server's block answer is, unless the verifier needs no block answer at all.
+            g.sched.profile = "per-server-fifo"
+            st_c = self.op_check(True, readonly=False)
+            g.sched.profile = "free"
+            if not self.runaway:
+                g.sched.settle()
+            return
         cr = None
         for op in plan:
             if self.runaway:
@@ -561,7 +591,7 @@ class History(object):
             # a deep-corrupt share is only examined by the verifier if it belongs to the version being verified;
             # with several versions present the file is unhealthy anyway
             eh = (len(inv) == 1 and len(rec) == 1 and len(inv[rec[0]]) >= V[rec[0]]["N"])
-            deep_seen = any(kind in DEEP_KINDS for (idx, sh), (vid, kind) in self.truth.items() if idx in servers)
+            deep_seen = any(kind in VERIFY_KINDS for (idx, sh), (vid, kind) in self.truth.items() if idx in servers)
             if verify and deep_seen:
                 eh = False
             readings.append((eh, bool(rec)))
@@ -625,13 +655,26 @@ class History(object):
                         listed = -1
                     # is every corrupt share a copy of a share number that the same version also has elsewhere?
                     corrupt_entries = [(idx, sh, vid) for (idx, sh), (vid, kind) in self.truth.items()
-                                       if idx in servers and kind in DEEP_KINDS + INVALID_KINDS]
+                                       if idx in servers and kind in VERIFY_KINDS + INVALID_KINDS]
                     all_duplicated = bool(corrupt_entries) and all(
                         any(sh2 == sh and vid2 == vid and idx2 != idx and idx2 in servers
                             for (idx2, sh2), (vid2, kind2) in self.truth.items())
                         for (idx, sh, vid) in corrupt_entries)
+                    only_privkey = bool(corrupt_entries) and all(
+                        self.truth[(idx, sh)][1] in PRIVKEY_KINDS for (idx, sh, vid) in corrupt_entries)
                     if listed > 0:
                         key = "healthy-reported-although-the-verifier-listed-corrupt-shares"
+                    elif only_privkey:
+                        # can the verifier finish without any further answer (everything it needs lies in the 1000
+                        # bytes a MODE_CHECK survey caches)?  then it never waits for the key verdicts
+                        cached = False
+                        for (idx, sh, vid) in corrupt_entries:
+                            ms_ = self.M.MutShare(raw=V[vid]["snap"][idx][sh]) if sh in V[vid]["snap"].get(idx, {}) else None
+                            if ms_ is not None and ms_.fmt is not None and ms_.num_segments() <= 1:
+                                end = ms_.block_span(0)[1][1] if ms_.num_segments() else ms_.f["o_share_data"]
+                                cached = cached or end <= 1000
+                        key = ("healthy-reported-verify-finished-before-the-private-key-verdict" if cached else
+                               "healthy-reported-with-a-corrupt-private-key-the-verifier-did-not-check")
                     elif all_duplicated:
                         key = "healthy-reported-with-an-unverified-corrupt-copy-of-a-duplicated-share-number"
                     else:
@@ -648,6 +691,8 @@ class History(object):
                 "is_recoverable()=%r; shares on answering servers: %s" % (results.is_recoverable(), w["inventory"]), w)
         if verify and corrupt_seen and not results.is_healthy():
             ck.hit("verify-found-corrupt-share")
+            if any(kind in PRIVKEY_KINDS for (idx, sh), (vid, kind) in self.truth.items() if idx in servers):
+                ck.hit("verify-found-corrupt-private-key")
 
     def op_check(self, verify, readonly):
         from allmydata.monitor import Monitor
@@ -824,6 +869,30 @@ class History(object):
             self.judge_health(pre_res, verify, servers, "check-and-repair-pre-repair", op)
             attempted = bool(crr.get_repair_attempted())
             successful = bool(crr.get_repair_successful()) if attempted else False
+            if attempted and successful and not pre["ambiguous"]:
+                # post-repair results: healthy <=> what is on the reachable servers now is one complete version
+                ck.mon("post-repair-results-oracle")
+                groups = {}
+                unparsable = 0
+                for (idx, shnum, ms) in self.M.disk_shares(g, self.si):
+                    if not g.servers[idx].connected or g.servers[idx].hidden:
+                        continue
+                    if ms.fmt is None:
+                        unparsable += 1
+                    else:
+                        groups.setdefault((ms.f["seqnum"], bytes(ms.f["root_hash"]), ms.f["N"]), set()).add(shnum)
+                disk_healthy = (unparsable == 0 and len(groups) == 1 and
+                                all(len(shs) >= v_[2] for v_, shs in groups.items()))
+                post = crr.get_post_repair_results()
+                if bool(post.is_healthy()) != disk_healthy:
+                    ck.violation("post-repair-results-%s-although-the-repaired-file-is-%s" % (
+                        "healthy" if post.is_healthy() else "unhealthy", "healthy" if disk_healthy else "unhealthy"),
+                        "check_and_repair(verify=%s) repaired successfully; post_repair_results.is_healthy()=%r (%s); "
+                        "on the reachable servers: %s" % (verify, post.is_healthy(), str(post.get_summary())[:80],
+                                                          {"seq%d" % v_[0]: sorted(shs) for v_, shs in groups.items()}),
+                        dict(self.desc, op=op, verify=verify))
+                else:
+                    ck.hit("post-repair-results-agree-with-the-grid")
             if attempted:
                 self.judge_repair(op, False, st, successful, None, n0, pre)
                 if successful:
